@@ -23,7 +23,7 @@ type PFIn struct {
 
 type PFObs struct {
 	Panic bool   `json:"panic"`
-	Res   string `json:"res"` // "doc" | "verifier" | "refused"
+	Res   string `json:"res"`   // "doc" | "verifier" | "refused"
 	Class string `json:"class"` // of a refusal, from the error text (informative only: wording is not judged)
 	From  string `json:"from"`
 	Note  string `json:"-"`
